@@ -75,7 +75,7 @@ func c17CaseVariant(r *core.Rand, nm string) string {
 }
 
 func checkC17(c *core.Ctx) []core.Floor {
-	c.Rule = "scripts of 15-60 steps over 2-4 databases (names of letters, digits and underscores, also with a leading underscore, with letters outside ASCII, pairs of names that differ only by a long s / final sigma, and quoted names with a blank inside or at the end or a leading dot; one script in 48 opens by creating 100-1030 further databases and lists them before and after a restart) in one session per process lifetime, REAL 100 ms flush timer: CREATE DATABASE (new / existing / other letter case), USE (another / the current one / a missing one / other letter case), SHOW DATABASES, DDL and DML as SQL text through Session.ExecQuery, pauses of 0 / 130 / 350 ms, and restarts (clean close, os.Exit without close, SIGKILL; abrupt ones after a pause of > 2 ticks) after which a new process runs InitStorage and continues the script. Oracle: model of databases; the current database changes only on a successful USE; after every successful USE every table of the selected database is read and compared; at every restart boundary the data directory (process gone, hence quiescent) is copied and a separate process recovers the copy and reads every table of every database; SHOW DATABASES must equal the created names (lower-cased set). Distinct = script; non-trivial = the script re-selected the current database or switched databases with unflushed work, then paused >= 1 tick."
+	c.Rule = "scripts of 15-60 steps over 2-4 databases (names of letters, digits and underscores, also with a leading underscore, with letters outside ASCII, pairs of names that differ only by a long s / final sigma, and quoted names with a blank inside or at the end or a leading dot; one script in 48 opens by creating 100-1030 further databases and lists them before and after a restart) in one session per process lifetime, REAL 100 ms flush timer: CREATE DATABASE (new / existing / other letter case), USE (another / the current one / a missing one / other letter case), SHOW DATABASES, DDL and DML as SQL text through Session.ExecQuery, pauses of 0 / 130 / 350 ms, and restarts (clean close, os.Exit without close, SIGKILL; abrupt ones after a pause of > 2 ticks; 'killhot': after that pause one more UPDATE or DELETE is acknowledged and the process is killed at once, so that its effect is in the log only) after which a new process runs InitStorage and continues the script. Oracle: model of databases; the current database changes only on a successful USE; after every successful USE every table of the selected database is read and compared; at every restart boundary the data directory (process gone, hence quiescent) is copied and a separate process recovers the copy and reads every table of every database; SHOW DATABASES must equal the created names (lower-cased set). Distinct = script; non-trivial = the script re-selected the current database or switched databases with unflushed work, then paused >= 1 tick."
 	c.Assume = []string{"database names are compared case-insensitively (directories are lower-cased)", "abrupt restarts follow a pause of more than two ticks and a look at the cache (no dirty page left), so that a kill never lands inside a page flush (that situation is C04's)"}
 	drv := mustDriver(c, false)
 	n := 96
@@ -84,7 +84,7 @@ func checkC17(c *core.Ctx) []core.Floor {
 	}
 	core.ParallelFor(n, c.Workers, func(i int) { runC17(c, drv, i) })
 	return []core.Floor{{Key: "scripts", Min: int64(n)}, {Key: "use_same", Min: 20}, {Key: "use_other", Min: 50}, {Key: "use_missing", Min: 20}, {Key: "use_othercase", Min: 5},
-		{Key: "restart_clean", Min: 10}, {Key: "restart_exit", Min: 10}, {Key: "restart_kill", Min: 10}, {Key: "reuse_same_then_insert_then_pause", Min: 5}, {Key: "failed_use_then_dml", Min: 5},
+		{Key: "restart_clean", Min: 10}, {Key: "restart_exit", Min: 10}, {Key: "restart_kill", Min: 5}, {Key: "restart_killhot", Min: 5}, {Key: "reuse_same_then_insert_then_pause", Min: 5}, {Key: "failed_use_then_dml", Min: 5},
 		{Key: "restart_boundary_databases_verified", Min: 100}, {Key: "dumps_after_use_compared", Min: 100}, {Key: "create_existing", Min: 10}, {Key: "scripted_openings_with_hundreds_of_databases", Min: 1}}
 }
 
@@ -235,9 +235,25 @@ func runC17(c *core.Ctx, drv string, idx int) {
 		case x < 18:
 			steps = append(steps, c17Step{kind: "pause", ms: []int{130, 350}[r.Intn(2)]})
 		default:
-			how := []string{"clean", "exit", "kill"}[r.Intn(3)]
+			how := []string{"clean", "exit", "kill", "killhot"}[r.Intn(4)]
 			if how != "clean" {
 				steps = append(steps, c17Step{kind: "pause", ms: 250})
+			}
+			if how == "killhot" {
+				// everything is in the data file; then one UPDATE or DELETE
+				// (changes existing pages, allocates none) is acknowledged and
+				// the process is killed at once: its effect is in the log only
+				// and start-up has to bring it back - in whichever database
+				// it was, whatever state the other databases are in
+				var st *proto.Stmt
+				if cur != "" {
+					st = dbs[cur].h.NextRowChange()
+				}
+				if st == nil {
+					how = "kill"
+				} else {
+					steps = append(steps, c17Step{kind: "quiesce"}, c17Step{kind: "stmt", stmt: st, text: model.RenderStmt(st, model.Plain)})
+				}
 			}
 			steps = append(steps, c17Step{kind: "restart", how: how})
 			cur = ""
@@ -285,11 +301,15 @@ func runC17(c *core.Ctx, drv string, idx int) {
 				add(proto.Op{K: "sql", SQL: proto.Text(st.text)}, meta{"stmt", end})
 			case "pause":
 				add(proto.Op{K: "sleep", N: st.ms}, meta{"pause", end})
+			case "quiesce":
+				add(proto.Op{K: "quiesce"}, meta{"other", end})
 			case "restart":
 				how = st.how
 				switch st.how {
 				case "clean":
 					add(proto.Op{K: "close"}, meta{"close", end})
+				case "killhot":
+					add(proto.Op{K: "kill"}, meta{"exit", end})
 				case "exit":
 					add(proto.Op{K: "quiesce"}, meta{"other", end})
 					add(proto.Op{K: "exit"}, meta{"exit", end})
